@@ -2,6 +2,7 @@ package inputroot
 
 import (
 	"os"
+	"runtime"
 	"runtime/debug"
 	"strings"
 	"testing"
@@ -14,9 +15,7 @@ import (
 func seqs(tier string) []*mc.Seq {
 	thorough := tier == "thorough"
 	var r []*mc.Seq
-	for _, in := range catalogue() {
-		c := compile(in)
-		cfg := config{nfs: true, cacheCount: 1000, explicitMerge: strings.HasPrefix(in.name, "mr/")}
+	add := func(c *compiled, cfg config) {
 		// Bounds by size of the alphabet (about 12 letters per directory
 		// path of the input root): histories of up to depth letters with at
 		// most maxMods successful local modifications and one CAS failure.
@@ -32,7 +31,14 @@ func seqs(tier string) []*mc.Seq {
 			quick, thor = 4, 5
 			cfg.maxMods = 1
 		default:
+			// w2/binary4: 15 directory paths. Exploration, faults and
+			// mutation attempts only in the quick tier.
 			quick, thor = 3, 4
+			cfg.maxMods = 0
+		}
+		if cfg.tag != "" && letters > 25 && cfg.maxMods > 1 {
+			// Configuration variants of an input that is also explored
+			// in the default configuration.
 			cfg.maxMods = 1
 		}
 		if thorough {
@@ -41,11 +47,75 @@ func seqs(tier string) []*mc.Seq {
 		cfg.depth = map[string]int{"quick": quick, "thorough": thor}
 		r = append(r, newSeq(c, cfg))
 	}
+	variants := map[string][]config{
+		"w1/a=f0,b=f1":      {{tag: "fuse", cacheCount: 1000}},
+		"w1/a=f0x,b=f0x":    {{tag: "fuse", cacheCount: 1000}},
+		"w1/a=f0,b=dG":      {{tag: "merge", nfs: true, cacheCount: 1000, explicitMerge: true}, {tag: "fuse", cacheCount: 1000}},
+		"w2/shared-depths":  {{tag: "fuse", cacheCount: 1000}, {tag: "cache1", nfs: true, cacheCount: 1}, {tag: "cache2", nfs: true, cacheCount: 2}, {tag: "warm", nfs: true, cacheCount: 1000, warm: true}},
+		"w2/chain3":         {{tag: "cache1", nfs: true, cacheCount: 1}},
+		"w2/mix":            {{tag: "merge", nfs: true, cacheCount: 1000, explicitMerge: true}, {tag: "warm", nfs: true, cacheCount: 1000, warm: true}},
+		"w2/same-blob-exec": {{tag: "fuse", cacheCount: 1000}, {tag: "monitor", nfs: true, cacheCount: 1000, monitor: true}},
+		"w1/a=f0x,b=dG":     {{tag: "monitor", nfs: true, cacheCount: 1000, monitor: true}},
+		"w2/two-syms":       {{tag: "fuse", cacheCount: 1000}},
+		"m/dup-file-sym":    {{tag: "fuse", cacheCount: 1000}},
+		"m/deep-dup":        {{tag: "warm", nfs: true, cacheCount: 1000, warm: true}, {tag: "cache1", nfs: true, cacheCount: 1}},
+	}
+	for _, in := range catalogue() {
+		c := compile(in)
+		add(c, config{nfs: true, cacheCount: 1000, explicitMerge: strings.HasPrefix(in.name, "mr/")})
+		for _, v := range variants[in.name] {
+			add(c, v)
+		}
+		delete(variants, in.name)
+	}
+	if len(variants) != 0 {
+		panic("variant of an input that is not in the catalogue")
+	}
+	// The non-virtual path (NaiveBuildDirectory + HardlinkingFileFetcher on
+	// an in-memory file system) for a subset of the catalogue.
+	naive := map[string][]int{
+		"w1/a=f0,b=f0x": {1000, 1}, "w1/a=f0x,b=dG": {1000}, "w1/a=sym,b=dG": {1000}, "w1/a=dE,b=f1": {1000},
+		"w2/same-blob-exec": {1000, 1}, "w2/diamond": {1000, 1}, "w2/mix": {1000}, "w2/empty-file": {1000}, "w2/two-syms": {1000}, "w2/chain3": {1000, 2},
+		"m/dup-file-file": {1000}, "m/dup-file-dir": {1000}, "m/dup-dir-sym": {1000}, "m/dup-sym-sym": {1000}, "m/dup-dir-dir": {1000},
+		"m/name-file-dotdot": {1000}, "m/name-dir-slash": {1000}, "m/name-sym-empty": {1000},
+		"m/digest-file-negsize": {1000}, "m/digest-dir-badhash": {1000}, "m/digest-file-nil": {1000},
+		"m/ghost-file": {1000}, "m/absent-deep": {1000}, "m/garbage": {1000}, "m/deep-dup": {1000},
+		"mr/dup-file-sym": {1000}, "mr/absent": {1000},
+	}
+	for _, in := range catalogue() {
+		for _, maxFiles := range naive[in.name] {
+			r = append(r, newNaiveSeq(compile(in), maxFiles, map[string]int{"quick": 5, "thorough": 7}))
+		}
+		delete(naive, in.name)
+	}
+	if len(naive) != 0 {
+		panic("naive variant of an input that is not in the catalogue")
+	}
 	return r
 }
 
 func TestMC(t *testing.T) {
 	// Thousands of tiny short-lived object graphs per second: collect less often.
 	debug.SetGCPercent(800)
-	mc.Main(t, nil, seqs(os.Getenv("MC_TIER")))
+	// Every scenario is its own worker process and the dispatcher runs many
+	// of them side by side: a few OS threads per process are enough.
+	if os.Getenv("GOMAXPROCS") == "" {
+		runtime.GOMAXPROCS(4)
+	}
+	all := seqs(os.Getenv("MC_TIER"))
+	// Development aid: INPUTROOT_ONLY=substr1,substr2 restricts the run to
+	// the scenarios whose name contains one of the substrings.
+	if only := os.Getenv("INPUTROOT_ONLY"); only != "" {
+		var sel []*mc.Seq
+		for _, s := range all {
+			for _, sub := range strings.Split(only, ",") {
+				if strings.Contains(s.Name, sub) {
+					sel = append(sel, s)
+					break
+				}
+			}
+		}
+		all = sel
+	}
+	mc.Main(t, nil, all)
 }
